@@ -9,11 +9,12 @@
   are absent.  `pog_traceback` completes it to a list in which every child column occurs (`pogTraceback`).
   `_calcAligneds` then re-gaps every row of both children:
 
-  * `fixed = false`, the code AS IT IS: the gaps of the parent map, whose positions are COLUMNS of the child
+  * `fixed = false`, the code BEFORE the repair 0eea0ba09 (kept as a regression note): the gaps of the parent map, whose positions are COLUMNS of the child
     alignment, are united with the row's own gaps, whose positions are SEQUENCE coordinates (`merge_maps` is
     "for the same sequence"); a gap position beyond the end of the sequence is rendered at the end (slices clip).
     Denotation: a parent gap at child column `c` is inserted before RESIDUE number `c` of the row (`insertGapAt`).
-  * `fixed = true`, the proposed repair (fixes/C18-progressive-column-merge.patch): the parent gap is
+  * `fixed = true`, the code in /repo since commit 0eea0ba09 (= fixes/C18-progressive-column-merge.patch; the
+    variant in force, probed by the harness on every run): the parent gap is
     inserted before COLUMN `c` of the row (`specMerge`: the row read through the completed positions).
 
   Import-free.
@@ -79,7 +80,7 @@ def insertGapAt {α : Type} : Nat → Row α → Row α
   | c + 1, some x :: r => some x :: insertGapAt c r
   | c, none :: r => none :: insertGapAt c r
 
-/-- the code as it is: every parent gap (a child COLUMN) is applied as a sequence position -/
+/-- the code before 0eea0ba09: every parent gap (a child COLUMN) is applied as a sequence position -/
 def pinnedMerge {α : Type} (d : Bool) (full : List Pos) (row : Row α) : Row α :=
   (colGaps d full 0).foldl (fun r c => insertGapAt c r) row
 
